@@ -18,6 +18,20 @@
    entry <= finalised ; persist.  One action per provider call (its return is the linearisation
    point) plus Consume (one update taken from the channel), TickStart and HandleSubErr.
 
+   STORAGE FAULTS (the write of the L1-head record).  The property speaks about the head "the node
+   records"; it is read conditionally: WHILE THE CLIENT KEEPS RUNNING the record equals the best
+   merged finalised event.  A failed Put of the record may end the client (Run returns the error,
+   the node stops - every service return cancels the node -, a restart re-scans), it may not leave
+   a running client with a stale record: setL1Head has already deleted every finalised entry,
+   the chosen head included, from the buffer before it writes, so there is nothing to retry with.
+   SetHead therefore takes the outcome of the write (wok); as coded a failed write on the tick path
+   stops the client (pc = "stopped": the client object is dead, its subscription unsubscribed);
+   on the catch-up path the error travels through catchUpL1HeadUpdates into Run, which treats
+   every catch-up error as "best effort" and goes on to the live subscription
+   (CatchUpWriteErrorFatal = FALSE is the code as it is; TRUE the repaired design).
+   Blockchain.SetL1Head writes first and announces the head on the L1-head feed second (no event
+   for a failed write): `announced` is the last head sent on the feed.
+
    Events are numbered 1,2,3.. in creation order; l1of/l2of give their L1 block and Starknet block
    number.  0 = no event. *)
 EXTENDS Naturals, Integers, Sequences, FiniteSets, TLC
@@ -30,6 +44,18 @@ CONSTANTS
   MaxFail,       \* injected failures (calls + subscription drops)
   MaxRestarts,   \* node restarts: a NEW client (empty buffer, new channel) on the SAME database
   ChunkSizes,    \* catch-up chunk sizes to choose from
+  MaxWriteFail,  \* injected failures of the Put of the L1-head record (0: the store never fails)
+  CatchUpWriteErrorFatal,
+      \* how Run treats a failed write of the head at the end of the catch-up scan.
+      \* FALSE: as in the code before the repair - the error is logged with every other catch-up
+      \* error ("resuming with live subscription only") and the client goes on, its buffer pruned.
+      \* TRUE (repaired): Run returns the error, like the tick path does.
+  SwallowWriteError,
+      \* MUTANT switch (never the code): TRUE = setL1Head on the tick path logs a failed write and
+      \* returns nil ("retry on the next poll").  L1_x_swallow.cfg must violate RunningImpliesRecorded.
+  AnnounceBeforeWrite,
+      \* MUTANT switch: TRUE = Blockchain.SetL1Head sends the head on the feed before it writes
+      \* (a failed write has been announced).  L1_x_announce.cfg must violate AnnouncedIsRecorded.
   FinalityAfterNotices
       \* TRUE (the registered assumption on the L1 node's timing): a height is reported finalised
       \* only after the removal notices of reorgs at or below it have left the client's channel.
@@ -55,20 +81,23 @@ VARIABLES
   chan,          \* the client's update channel: sequence of [id, removed]
   delivered,     \* events handed to the client (pushed into chan or returned by a filter call)
   \* ---- client
-  pc,            \* "chainid" "latest" "fin0" "filter" "catchfin" "watch" "loop" "tickfin"
+  pc,            \* "chainid" "latest" "fin0" "filter" "catchfin" "watch" "loop" "tickfin" "stopped"
   chunk,         \* catchUpChunkSize of this run
   cFin, cTo, cFound,   \* catch-up locals: finalised snapshot, upper end of the next chunk, foundFinalised
   buffer,        \* nonFinalisedLogs: height -> event id (0 = no entry)
   stored,        \* the persisted L1 head (event id, 0 = none)
   fails,
+  wfails,        \* failed writes of the head record so far
   restarts,
   \* ---- history, for the property only
   applied,       \* events merged into the buffer at some time
-  removedSeen    \* events whose removal notice was merged
+  removedSeen,   \* events whose removal notice was merged
+  announced      \* the last head sent on the L1-head feed (0 none)
 
 nodeVars   == <<blocks, top, fin, nEv, l1of, l2of, reorgs, subUp, subPos, subErr, chan, delivered>>
-clientVars == <<pc, chunk, cFin, cTo, cFound, buffer, stored, fails, restarts>>
-histVars   == <<applied, removedSeen>>
+chainVars  == <<blocks, top, fin, nEv, l1of, l2of, reorgs, subPos>>   \* nodeVars without the subscription / delivery part
+clientVars == <<pc, chunk, cFin, cTo, cFound, buffer, stored, fails, wfails, restarts>>
+histVars   == <<applied, removedSeen, announced>>
 vars == <<nodeVars, clientVars, histVars>>
 
 Max(S) == CHOOSE x \in S : \A y \in S : y <= x
@@ -85,8 +114,8 @@ Init ==
   /\ l1of = [e \in Ev |-> 0] /\ l2of = [e \in Ev |-> 0]
   /\ reorgs = 0 /\ subUp = FALSE /\ subPos = 0 /\ subErr = FALSE /\ chan = <<>> /\ delivered = {}
   /\ pc = "chainid" /\ chunk \in ChunkSizes /\ cFin = 0 /\ cTo = 0 /\ cFound = FALSE
-  /\ buffer = [h \in Heights |-> 0] /\ stored = 0 /\ fails = 0 /\ restarts = 0
-  /\ applied = {} /\ removedSeen = {}
+  /\ buffer = [h \in Heights |-> 0] /\ stored = 0 /\ fails = 0 /\ wfails = 0 /\ restarts = 0
+  /\ applied = {} /\ removedSeen = {} /\ announced = 0
 
 ----------------------------------------------------------------------------
 (* L1 node *)
@@ -137,7 +166,7 @@ SubFail ==
   /\ subUp /\ fails < MaxFail
   /\ subUp' = FALSE /\ subErr' = TRUE /\ fails' = fails + 1
   /\ UNCHANGED <<blocks, top, fin, nEv, l1of, l2of, reorgs, subPos, chan, delivered,
-                 pc, chunk, cFin, cTo, cFound, buffer, stored, restarts, histVars>>
+                 pc, chunk, cFin, cTo, cFound, buffer, stored, wfails, restarts, histVars>>
 
 ----------------------------------------------------------------------------
 (* client *)
@@ -150,12 +179,12 @@ Apply(buf, m) ==
 RECURSIVE ApplyAll(_, _)
 ApplyAll(buf, ms) == IF ms = <<>> THEN buf ELSE ApplyAll(Apply(buf, ms[1]), Tail(ms))
 
-(* setL1Head after finalisedHeight returned f *)
+(* setL1Head after finalisedHeight returned f: the entry it picks and what it leaves buffered
+   (every entry at or below f is deleted BEFORE the head is written) *)
 Cand(f) == {h \in Heights : buffer[h] # 0 /\ h <= f}
-SetHead(f) ==
-  IF Cand(f) = {} THEN UNCHANGED <<buffer, stored>>
-  ELSE /\ stored' = buffer[Max(Cand(f))]
-       /\ buffer' = [h \in Heights |-> IF h <= f THEN 0 ELSE buffer[h]]
+HeadOf(f) == buffer[Max(Cand(f))]
+Pruned(f) == [h \in Heights |-> IF h <= f THEN 0 ELSE buffer[h]]
+NoBuffer == [h \in Heights |-> 0]
 
 CanFail == fails < MaxFail
 Failed  == fails' = fails + 1
@@ -163,20 +192,20 @@ Failed  == fails' = fails + 1
 ChainID(ok) ==
   /\ pc = "chainid"
   /\ IF ok THEN pc' = "latest" /\ fails' = fails ELSE CanFail /\ Failed /\ pc' = pc     \* retried
-  /\ UNCHANGED <<nodeVars, chunk, restarts, cFin, cTo, cFound, buffer, stored, histVars>>
+  /\ UNCHANGED <<nodeVars, chunk, restarts, cFin, cTo, cFound, buffer, stored, wfails, histVars>>
 
 (* a failure anywhere in the scan abandons catch-up; Run goes on to the live subscription *)
 Latest(ok) ==
   /\ pc = "latest"
   /\ IF ok THEN pc' = "fin0" /\ cTo' = top /\ fails' = fails
            ELSE CanFail /\ Failed /\ pc' = "watch" /\ cTo' = cTo
-  /\ UNCHANGED <<nodeVars, chunk, restarts, cFin, cFound, buffer, stored, histVars>>
+  /\ UNCHANGED <<nodeVars, chunk, restarts, cFin, cFound, buffer, stored, wfails, histVars>>
 
 Fin0(ok) ==
   /\ pc = "fin0"
   /\ IF ok THEN pc' = "filter" /\ cFin' = fin /\ cFound' = FALSE /\ fails' = fails
            ELSE CanFail /\ Failed /\ pc' = "watch" /\ UNCHANGED <<cFin, cFound>>
-  /\ UNCHANGED <<nodeVars, chunk, restarts, cTo, buffer, stored, histVars>>
+  /\ UNCHANGED <<nodeVars, chunk, restarts, cTo, buffer, stored, wfails, histVars>>
 
 ChunkFrom == IF cTo + 1 > chunk THEN cTo + 1 - chunk ELSE 0
 
@@ -194,17 +223,43 @@ Filter(ok) ==
      ELSE /\ CanFail /\ Failed /\ pc' = "watch"        \* the partial buffer stays
           /\ UNCHANGED <<buffer, delivered, applied, cFound, cTo>>
   /\ UNCHANGED <<blocks, top, fin, nEv, l1of, l2of, reorgs, subUp, subPos, subErr, chan,
-                 chunk, cFin, stored, restarts, removedSeen>>
+                 chunk, cFin, stored, wfails, restarts, removedSeen, announced>>
 
-(* the finalisedHeight retry loop of setL1Head: at the end of catch-up and on every tick *)
-FinAndSet(from, to, ok) ==
+(* Run has returned: the client object is dead, its subscription unsubscribed (deferred in
+   receiveL1StateUpdates), whatever it had buffered or not yet taken from its channel is gone.
+   Like Restart, without a new client. *)
+ClientGone ==
+  /\ cFin' = 0 /\ cTo' = 0 /\ cFound' = FALSE /\ buffer' = NoBuffer
+  /\ chan' = <<>> /\ subUp' = FALSE /\ subErr' = FALSE
+  /\ delivered' = (IF stored' = 0 THEN {} ELSE {stored'})
+  /\ applied' = (IF stored' = 0 THEN {} ELSE {stored'}) /\ removedSeen' = {}
+
+(* the finalisedHeight retry loop of setL1Head, at the end of catch-up and on every tick, then the
+   pick / prune / write of setL1Head.  ok: FinalisedHeight answered; wok: the Put of the head record
+   succeeded (only a setL1Head that found a finalised entry writes: otherwise wok is TRUE);
+   fatal: the caller returns a write error from Run. *)
+FinAndSet(from, to, ok, wok, fatal) ==
   /\ pc = from
-  /\ IF ok THEN SetHead(fin) /\ pc' = to /\ fails' = fails
-           ELSE CanFail /\ Failed /\ pc' = pc /\ UNCHANGED <<buffer, stored>>
-  /\ UNCHANGED <<nodeVars, chunk, restarts, cFin, cTo, cFound, histVars>>
+  /\ IF ~ok THEN
+       /\ wok /\ CanFail /\ Failed /\ pc' = pc
+       /\ UNCHANGED <<nodeVars, cFin, cTo, cFound, buffer, stored, wfails, histVars>>
+     ELSE IF Cand(fin) = {} THEN                       \* "No finalised logs": nothing is written
+       /\ wok /\ pc' = to
+       /\ UNCHANGED <<nodeVars, cFin, cTo, cFound, buffer, stored, fails, wfails, histVars>>
+     ELSE IF wok THEN                                  \* written, then announced on the feed
+       /\ stored' = HeadOf(fin) /\ announced' = HeadOf(fin) /\ buffer' = Pruned(fin) /\ pc' = to
+       /\ UNCHANGED <<nodeVars, cFin, cTo, cFound, fails, wfails, applied, removedSeen>>
+     ELSE                                              \* the Put failed; the buffer is pruned already
+       /\ wfails < MaxWriteFail /\ wfails' = wfails + 1 /\ fails' = fails
+       /\ stored' = stored
+       /\ announced' = (IF AnnounceBeforeWrite THEN HeadOf(fin) ELSE announced)
+       /\ IF fatal THEN /\ pc' = "stopped" /\ ClientGone /\ UNCHANGED chainVars
+                   ELSE /\ pc' = to /\ buffer' = Pruned(fin)
+                        /\ UNCHANGED <<nodeVars, cFin, cTo, cFound, applied, removedSeen>>
+  /\ UNCHANGED <<chunk, restarts>>
 
-CatchFin(ok) == FinAndSet("catchfin", "watch", ok)
-TickFin(ok)  == FinAndSet("tickfin", "loop", ok)
+CatchFin(ok, wok) == FinAndSet("catchfin", "watch", ok, wok, CatchUpWriteErrorFatal)
+TickFin(ok, wok)  == FinAndSet("tickfin", "loop", ok, wok, ~SwallowWriteError)
 
 (* subscribeToUpdates: a new subscription starts at the current head *)
 Watch(ok) ==
@@ -212,7 +267,7 @@ Watch(ok) ==
   /\ IF ok THEN /\ pc' = "loop" /\ subUp' = TRUE /\ subPos' = top /\ subErr' = FALSE /\ fails' = fails
            ELSE /\ CanFail /\ Failed /\ pc' = pc /\ UNCHANGED <<subUp, subPos, subErr>>
   /\ UNCHANGED <<blocks, top, fin, nEv, l1of, l2of, reorgs, chan, delivered,
-                 chunk, cFin, cTo, cFound, buffer, stored, restarts, histVars>>
+                 chunk, cFin, cTo, cFound, buffer, stored, wfails, restarts, histVars>>
 
 (* case stateUpdate := <-updateCh *)
 Consume ==
@@ -222,26 +277,28 @@ Consume ==
   /\ IF chan[1].removed THEN removedSeen' = removedSeen \cup {chan[1].id} /\ applied' = applied
                         ELSE applied' = applied \cup {chan[1].id} /\ removedSeen' = removedSeen
   /\ UNCHANGED <<blocks, top, fin, nEv, l1of, l2of, reorgs, subUp, subPos, subErr, delivered,
-                 pc, chunk, cFin, cTo, cFound, stored, fails, restarts>>
+                 pc, chunk, cFin, cTo, cFound, stored, fails, wfails, restarts, announced>>
 
 (* case err := <-sub.Err() *)
 HandleSubErr ==
   /\ pc = "loop" /\ subErr
   /\ subErr' = FALSE /\ pc' = "watch"
   /\ UNCHANGED <<blocks, top, fin, nEv, l1of, l2of, reorgs, subUp, subPos, chan, delivered,
-                 chunk, cFin, cTo, cFound, buffer, stored, fails, restarts, histVars>>
+                 chunk, cFin, cTo, cFound, buffer, stored, fails, wfails, restarts, histVars>>
 
 (* case <-ticker.C *)
 TickStart ==
   /\ pc = "loop"
   /\ pc' = "tickfin"
-  /\ UNCHANGED <<nodeVars, chunk, restarts, cFin, cTo, cFound, buffer, stored, fails, histVars>>
+  /\ UNCHANGED <<nodeVars, chunk, restarts, cFin, cTo, cFound, buffer, stored, fails, wfails, histVars>>
 
 (* The node process is restarted (gracefully or not - l1.Client persists nothing but the head):
    a new Client starts from ensureChainID with an empty buffer and a new update channel; whatever
    the old one had buffered or not yet taken from its channel is gone, the old subscription is dead.
    The database, and with it the recorded head, survives.  What "delivered to it" means starts
-   afresh, except that the recorded head itself stays a commit the node knows about. *)
+   afresh, except that the recorded head itself stays a commit the node knows about.
+   A client that stopped after a failed write is restarted the same way (the operator / supervisor
+   starts the node again). *)
 Restart ==
   /\ restarts < MaxRestarts
   /\ restarts' = restarts + 1
@@ -250,15 +307,15 @@ Restart ==
   /\ chan' = <<>> /\ subUp' = FALSE /\ subErr' = FALSE
   /\ delivered' = (IF stored = 0 THEN {} ELSE {stored})
   /\ applied' = (IF stored = 0 THEN {} ELSE {stored}) /\ removedSeen' = {}
-  /\ UNCHANGED <<blocks, top, fin, nEv, l1of, l2of, reorgs, subPos, chunk, stored, fails>>
+  /\ UNCHANGED <<blocks, top, fin, nEv, l1of, l2of, reorgs, subPos, chunk, stored, fails, wfails, announced>>
 
 NodeNext == \/ \E n \in 0..MaxPerBlock : Mine(n)
             \/ \E h \in Heights : Finalise(h)
             \/ \E k \in Heights : Reorg(k)
             \/ Push \/ SubFail
 
-ClientNext == \/ \E ok \in BOOLEAN : ChainID(ok) \/ Latest(ok) \/ Fin0(ok) \/ Filter(ok)
-                                      \/ CatchFin(ok) \/ TickFin(ok) \/ Watch(ok)
+ClientNext == \/ \E ok \in BOOLEAN : ChainID(ok) \/ Latest(ok) \/ Fin0(ok) \/ Filter(ok) \/ Watch(ok)
+              \/ \E ok, wok \in BOOLEAN : CatchFin(ok, wok) \/ TickFin(ok, wok)
               \/ Consume \/ HandleSubErr \/ TickStart
               \/ Restart
 
@@ -270,7 +327,8 @@ Spec == Init /\ [][Next]_vars
 
 TypeOK ==
   /\ top \in Heights /\ fin \in Heights /\ fin <= top /\ nEv \in 0..MaxEvents
-  /\ pc \in {"chainid", "latest", "fin0", "filter", "catchfin", "watch", "loop", "tickfin"}
+  /\ pc \in {"chainid", "latest", "fin0", "filter", "catchfin", "watch", "loop", "tickfin", "stopped"}
+  /\ wfails \in 0..MaxWriteFail /\ announced \in 0..MaxEvents
   /\ stored \in 0..MaxEvents /\ fails \in 0..MaxFail /\ reorgs \in 0..MaxReorgs /\ restarts \in 0..MaxRestarts
   /\ subPos <= top /\ delivered \subseteq 1..nEv /\ applied \subseteq delivered
 
@@ -292,6 +350,22 @@ StoredFinalisedCanonical ==
 IsSetHeadStep == \/ pc = "tickfin" /\ pc' = "loop"
                  \/ pc = "catchfin" /\ pc' = "watch"
 SetHeadExact == [][IsSetHeadStep => stored' = Best(Live(fin))]_vars
+
+(* The conditional reading of the property under storage faults: whenever a setL1Head completes
+   (FinalisedHeight answered) and the client is still running afterwards, the record is the best
+   live merged event at or below the reported finalised height - whatever happened to the write.
+   A client may stop on a failed write; it may not go on with a stale record. *)
+IsSetHeadEnd == pc \in {"tickfin", "catchfin"} /\ pc' # pc /\ restarts' = restarts
+RunningImpliesRecorded == [][(IsSetHeadEnd /\ pc' # "stopped") => stored' = Best(Live(fin))]_vars
+
+(* the client stops only because a write of the head failed, and the record is then untouched *)
+StopOnlyOnWriteFailure == [][(pc' = "stopped" /\ pc # "stopped") => (wfails' = wfails + 1 /\ stored' = stored)]_vars
+
+(* what was announced on the L1-head feed is what is recorded (write first, announce second) *)
+AnnouncedIsRecorded == announced = stored
+
+(* not a property: its violation (L1_x_stop.cfg) shows that the stop after a failed write is reachable *)
+NeverStopped == pc # "stopped"
 
 (* ... and at all times it is at least as good as what was known at the last setL1Head: nothing
    but a setL1Head changes it *)
